@@ -118,6 +118,10 @@ extern "C" std::optional<MacroDetector::Response> stub_detect(MacroDetector *sel
   int n = in.n;
   bool has = nondet_bool();
   if (L.adversarial) has = true;
+#ifdef MA_QUIET_AFTER
+  // a macro set whose expansion is finished after MA_QUIET_AFTER detector consultations (used with budgets far above the number of passes needed)
+  if (L.n >= MA_QUIET_AFTER) has = false;
+#endif
   if (n - 1 < 1) has = false;
   r.has = has; r.loc = 0; r.len = 0;
   MacroDetector::Response resp; resp.location = 0; resp.length = 0;
@@ -315,10 +319,12 @@ static void run_selection(unsigned passes, bool adversarial) {
   ASSERT(ok_names && ok_budget, "C10: the temporaries of the k-th rewriting step of a run are the ID tokens <#n>:<file>:<line of the first body token>_(M<k>): every step has its own number (one rewrite per pass)");
   // --- C11 budget
   ASSERT(ok_budget && (unsigned)rewrites <= passes, "C11: at most `passes` rewriting steps; no detector is consulted after the budget is used up");
+  ASSERT(ok_one, "C11: a pass performs exactly one rewriting step (the token sequence after the pass is the one before it with ONE instantiated match spliced in), so the number of steps is bounded by the number of passes");
   if ((unsigned)rewrites < passes) ASSERT(!maxed, "C11: when some pass finds nothing the loop stops and no MAX_PASSES error is added");
   if ((unsigned)rewrites == passes && passes > 0) ASSERT(maxed, "C11: when every pass of the budget rewrote, MACRO_APPLY_REACHED_MAX_PASSES is reported");
   ASSERT(nmax <= 1 && res.errors.n == nconf + nmax, "C11: the error list holds one entry per rejected macro and at most one MAX_PASSES entry");
-  ASSERT(out.n <= input.n + (int)passes * MA_MAXR && out.n <= input.n + rewrites * (MA_MAXR - 1), "C11: output size <= input size + passes * longest instantiated body");
+  ASSERT((long)out.n <= (long)input.n + (long)passes * MA_MAXR && out.n <= input.n + rewrites * (MA_MAXR - 1), "C11: output size <= input size + passes * longest instantiated body");
+  ASSERT(spec_end || maxed, "C11: an expansion that stops while rewriting is still possible and budget is left reports MAX_PASSES - an unfinished expansion is never passed on as correct (any budget from 1 upward)");
   if (adversarial) ASSERT((unsigned)rewrites == passes || out.n == 1 || nusable == 0, "C11: with a detector that always reports a match exactly `passes` rewriting steps happen (unless no token or no usable macro is left)");
   // --- C12 (usable filter; the generator itself is someone else's obligation)
   { bool ok = true; int k = 0;
